@@ -47,6 +47,9 @@ pub struct Note {
     /// the client closes the document and opens it again with this text (its version numbering
     /// restarts at 1)
     pub reopen: bool,
+    /// a didChange that carries NO content change (`contentChanges: []`): the text stays what it
+    /// was (`text` repeats it), the version moves on and the server publishes once more
+    pub unchanged: bool,
 }
 
 /// file names of the two documents.  Beside the plain pair there are names that need percent
@@ -97,6 +100,7 @@ fn script(dir: &str, names: &[&str; 2], notes: &[Note]) -> (Vec<Value>, Vec<(Str
             msgs.push(lsp_did_open(&u[n.uri_idx], v, &n.text));
         } else {
             match &n.stale {
+                _ if n.unchanged => msgs.push(lsp_did_change(&u[n.uri_idx], v, &[])),
                 Some(st) => msgs.push(lsp_did_change(&u[n.uri_idx], v, &[st, &n.text])),
                 None => msgs.push(lsp_did_change(&u[n.uri_idx], v, &[&n.text])),
             }
@@ -159,9 +163,9 @@ impl Refs {
         let mut notes = vec![];
         let o = 1 - u;
         if let Some(t) = &state[o] {
-            notes.push(Note { uri_idx: o, text: t.clone(), stale: None, reopen: false });
+            notes.push(Note { uri_idx: o, text: t.clone(), stale: None, reopen: false, unchanged: false });
         }
-        notes.push(Note { uri_idx: u, text: state[u].clone().unwrap(), stale: None, reopen: false });
+        notes.push(Note { uri_idx: u, text: state[u].clone().unwrap(), stale: None, reopen: false, unchanged: false });
         let (msgs, _) = script(&self.dir, &self.names, &notes);
         // the reference itself is run twice; a disagreement between the two runs is C06's business
         let r1 = publications(&lsp_run(&msgs));
@@ -279,7 +283,7 @@ fn all_histories(max_len: usize) -> Vec<Vec<(usize, usize)>> {
 }
 
 fn to_notes(h: &[(usize, usize)]) -> Vec<Note> {
-    h.iter().map(|&(u, k)| Note { uri_idx: u, text: template(["a", "b"][u], ["b", "a"][u], k), stale: None, reopen: false }).collect()
+    h.iter().map(|&(u, k)| Note { uri_idx: u, text: template(["a", "b"][u], ["b", "a"][u], k), stale: None, reopen: false, unchanged: false }).collect()
 }
 
 fn random_history(t: &mut Tape, gates: &Gates) -> Vec<Note> {
@@ -482,15 +486,27 @@ fn random_history(t: &mut Tape, gates: &Gates) -> Vec<Note> {
             docs[u].push(d);
         }
     }
-    (0..n)
-        .map(|_| {
-            let u = t.below(2);
-            let d = t.below(docs[u].len());
-            let stale = if t.ratio(1, 5) && gates.want("DID_CHANGE_WITH_TWO_CONTENT_CHANGES") { Some(docs[u][t.below(docs[u].len())].clone()) } else { None };
-            let reopen = t.ratio(1, 6) && gates.want("DOCUMENT_CLOSED_AND_REOPENED");
-            Note { uri_idx: u, text: docs[u][d].clone(), stale: if reopen { None } else { stale }, reopen }
-        })
-        .collect()
+    let mut cur: [Option<String>; 2] = [None, None];
+    let mut out = vec![];
+    for _ in 0..n {
+        let u = t.below(2);
+        let d = t.below(docs[u].len());
+        let stale = if t.ratio(1, 5) && gates.want("DID_CHANGE_WITH_TWO_CONTENT_CHANGES") { Some(docs[u][t.below(docs[u].len())].clone()) } else { None };
+        let reopen = t.ratio(1, 6) && gates.want("DOCUMENT_CLOSED_AND_REOPENED");
+        // now and then a change notification without any content change (once, or twice in a row)
+        if let Some(c) = cur[u].clone() {
+            if t.ratio(1, 8) && gates.want("DID_CHANGE_WITHOUT_CONTENT_CHANGES") {
+                let reps = 1 + t.below(2);
+                for _ in 0..reps {
+                    out.push(Note { uri_idx: u, text: c.clone(), stale: None, reopen: false, unchanged: true });
+                }
+                continue;
+            }
+        }
+        cur[u] = Some(docs[u][d].clone());
+        out.push(Note { uri_idx: u, text: docs[u][d].clone(), stale: if reopen { None } else { stale }, reopen, unchanged: false });
+    }
+    out
 }
 
 pub fn run(ctx: &Ctx) -> i32 {
@@ -523,7 +539,7 @@ pub fn run(ctx: &Ctx) -> i32 {
                 stats.inconclusive += 1;
                 Ok(())
             }
-            Err((k, d)) => Err(Failure::new("history", &k, d, json!({"history": notes.iter().map(|n| json!({"uri": (if n.uri_idx == 0 { "a.st" } else { "b.st" }), "text": n.text, "stale": n.stale, "reopen": n.reopen})).collect::<Vec<_>>()}))),
+            Err((k, d)) => Err(Failure::new("history", &k, d, json!({"history": notes.iter().map(|n| json!({"uri": (if n.uri_idx == 0 { "a.st" } else { "b.st" }), "text": n.text, "stale": n.stale, "reopen": n.reopen, "unchanged": n.unchanged})).collect::<Vec<_>>()}))),
         }
     });
     rep.add(out);
@@ -551,11 +567,11 @@ pub fn run(ctx: &Ctx) -> i32 {
                 for pad_b in pads {
                     let ta = format!("{}{}", pad_a, fa);
                     let tb = format!("{}{}", pad_b, fb);
-                    let a = Note { uri_idx: 0, text: ta.clone(), stale: None, reopen: false };
-                    let b = Note { uri_idx: 1, text: tb.clone(), stale: None, reopen: false };
+                    let a = Note { uri_idx: 0, text: ta.clone(), stale: None, reopen: false, unchanged: false };
+                    let b = Note { uri_idx: 1, text: tb.clone(), stale: None, reopen: false, unchanged: false };
                     items.push(vec![a.clone(), b.clone()]);
                     items.push(vec![b.clone(), a.clone()]);
-                    items.push(vec![a.clone(), b.clone(), Note { uri_idx: 0, text: ta.clone(), stale: None, reopen: false }]);
+                    items.push(vec![a.clone(), b.clone(), Note { uri_idx: 0, text: ta.clone(), stale: None, reopen: false, unchanged: false }]);
                 }
             }
         }
@@ -568,7 +584,7 @@ pub fn run(ctx: &Ctx) -> i32 {
                     stats.inconclusive += 1;
                     Ok(())
                 }
-                Err((k, d)) => Err(Failure::new("history", &k, d, json!({"history": notes.iter().map(|n| json!({"uri": (if n.uri_idx == 0 { "a.st" } else { "b.st" }), "text": n.text, "stale": n.stale, "reopen": n.reopen})).collect::<Vec<_>>()}))),
+                Err((k, d)) => Err(Failure::new("history", &k, d, json!({"history": notes.iter().map(|n| json!({"uri": (if n.uri_idx == 0 { "a.st" } else { "b.st" }), "text": n.text, "stale": n.stale, "reopen": n.reopen, "unchanged": n.unchanged})).collect::<Vec<_>>()}))),
             }
         });
         rep.add(out);
@@ -601,7 +617,7 @@ pub fn run(ctx: &Ctx) -> i32 {
                 stats.inconclusive += 1;
                 Ok(())
             }
-            Err((k, d)) => Err(Failure::new("history", &k, d, json!({"names": refs2.names, "history": notes.iter().map(|n| json!({"uri": (if n.uri_idx == 0 { "a.st" } else { "b.st" }), "text": n.text, "stale": n.stale, "reopen": n.reopen})).collect::<Vec<_>>()}))),
+            Err((k, d)) => Err(Failure::new("history", &k, d, json!({"names": refs2.names, "history": notes.iter().map(|n| json!({"uri": (if n.uri_idx == 0 { "a.st" } else { "b.st" }), "text": n.text, "stale": n.stale, "reopen": n.reopen, "unchanged": n.unchanged})).collect::<Vec<_>>()}))),
         }
     });
     rep.add(out);
@@ -626,7 +642,7 @@ pub fn witness(w: &Value) -> Result<(), String> {
         .cloned()
         .unwrap_or_default()
         .iter()
-        .map(|n| Note { uri_idx: if n["uri"] == "b.st" { 1 } else { 0 }, text: n["text"].as_str().unwrap_or("").to_string(), stale: n["stale"].as_str().map(String::from), reopen: n["reopen"].as_bool().unwrap_or(false) })
+        .map(|n| Note { uri_idx: if n["uri"] == "b.st" { 1 } else { 0 }, text: n["text"].as_str().unwrap_or("").to_string(), stale: n["stale"].as_str().map(String::from), reopen: n["reopen"].as_bool().unwrap_or(false), unchanged: n["unchanged"].as_bool().unwrap_or(false) })
         .collect();
     if notes.is_empty() {
         return Err("empty history".into());
